@@ -316,7 +316,19 @@ def r3_covers(prog, rep: Report, tp: Cls, fp: Cls):
     else:
         normal = [p for p in paths if p.exit == "return"]
         raising = [p for p in paths if p.exit != "return"]
-        looped = [p for p in normal if any(e[0] == "loop" and is_reg0(e[2]) for e in p.events)]
+        def knows_empty(p) -> bool:
+            """the path was taken because the registry is empty: nothing to remove (a fast path in front of the loop)"""
+            for t, outcome in p.decisions:
+                neg = False
+                while isinstance(t, tuple) and t and t[0] == "not":
+                    t, neg = t[1], not neg
+                if is_reg0(t) and (outcome != neg) is False:
+                    return True
+                if isinstance(t, tuple) and t and t[0] == "cmp" and t[1] in ("Eq", "LtE") and isinstance(t[2], tuple) \
+                        and t[2][:2] == ("call", "len") and t[2][2] and is_reg0(t[2][2][0]) and t[3] == ("c", 0) and (outcome != neg):
+                    return True
+            return False
+        looped = [p for p in normal if any(e[0] == "loop" and is_reg0(e[2]) for e in p.events) or knows_empty(p)]
         why = None
         if not normal:
             why = "flush has no normal path"
@@ -353,6 +365,8 @@ def r3_covers(prog, rep: Report, tp: Cls, fp: Cls):
                 t = p.heap.get(reg)
                 if mode and not (t is not None and _is_manager_list_term(t) and not t[3]):
                     bad = bad or ("multi_proc", t)
+                if not mode and t is None and knows_empty(p):
+                    continue         # single-process pool whose (plain) list is already empty: keeping it is the same as a new []
                 if not mode and t != ("list",):
                     bad = bad or ("single-process", t)
         rep.check("C20.R3", f, "flush-resets-registry", bad is None, "registry replaced by a manager list iff multi_proc, else []",
